@@ -183,12 +183,12 @@ func vfC17MDo(t *testing.T, s *vfutil.Session, c *vfC17MCase, tag int, src strin
 		}
 		t0 := vfdoubles.Replay(log[:seedLen], 0)
 		cl := checkpoint.VfConn(t0)
-		cur, known, _ := checkpoint.LoadBisyncNamespaceMode(cl, c.old)
-		if !known {
+		cur, known, merr := checkpoint.LoadBisyncNamespaceMode(cl, c.old)
+		if !known && merr == nil {
 			cur, known, _ = sy.inferBisyncNamespaceMode(cl, c.old, c.ids, []uint16{0})
 		}
 		cl.Close()
-		if known {
+		if known && merr == nil {
 			if before, ok := bstart(t0, c.old, cur); ok {
 				for k := 0; k <= len(ws); k++ {
 					cut := seedLen
@@ -202,6 +202,13 @@ func vfC17MDo(t *testing.T, s *vfutil.Session, c *vfC17MCase, tag int, src strin
 					after, ok2 := int64(0), false
 					if err2 == nil {
 						after, ok2 = bstart(tk, name2, c.desired)
+					}
+					if k == 0 && err2 != nil {
+						// the switch is REFUSED on this state (no authoritative seed: the repo's own
+						// TestResolveBisyncCheckpointNameRejectsPlainCheckpointFallback pins that; journal
+						// gap): it issues no request, the target keeps its position
+						s.Count("migrate_refused")
+						break
 					}
 					if err2 != nil || !ok2 || after < before {
 						req := "-"
